@@ -301,6 +301,16 @@ def prev(F, R):
                 okh = False
     R.check(okh, 'B.C06.prev', 'hold', 'raw_value is overwritten even when the linked value does not resolve (None)',
             detail='raw_value = v only under Some(v)')
+    # ... and it is recomputed in every update of a parameter that is not stagnant (a parameter following a modulator or a
+    # listener, or in a tween, has no 'nothing changed' shortcut: what it follows is looked at each time)
+    if calc and len(sw) == 1:
+        t = b.blocks[sw[0]]['term']
+        stag_true = [tb_ for v, tb_ in t['targets'] if str(v) != '0'] + ([t['otherwise']] if any(str(v) == '0' for v, _ in t['targets']) else [])
+        from ..rules import must_pass
+        skipped = [r for r in b.return_blocks() if not must_pass(b, [0], [r], [calc[0][0]] + stag_true)]
+        R.check(not skipped, 'B.C06.prev', 'recomputed', 'Parameter::update can return (at %s) without recomputing the raw value although the parameter is '
+                'not stagnant: a linked or tweening parameter keeps a stale value on that path' % (b.where(skipped[0]) if skipped else ''),
+                detail='not stagnant => calculate_new_raw_value on every path', where=b.file)
     iv = F.body(P + '::interpolated_value')
     if R.check(iv is not None, 'B.C06.prev', 'anchor:interpolated_value', 'not found'):
         cs = calls_where(iv, lambda p, t: t['callee'].get('name') == 'interpolate')
